@@ -29,6 +29,9 @@ ASSUMPTIONS = [
     'QRCode.show() and write_terminal_win are not simulated (no property covers them)',
 ]
 STEP_BUDGET = {'quick': 40_000_000, 'thorough': 400_000_000}
+FAULT_FUNCS = ('find_and_apply_best_mask', 'apply_mask', 'make_blocks', 'make_final_message', 'add_codewords', 'make_matrix', 'add_format_info',
+               'write_png', 'write_ppm', 'write_svg', 'write_pdf', 'write_pam', 'write_eps', '_make_colormap', 'writable', 'wrapper', 'save',
+               'matrix_iter', 'matrix_iter_verbose', 'matrix_to_lines', 'make_segment', 'encode_sequence', '_encode', 'encode', 'mask_scores')
 PROBE_FUNCS = ('find_and_apply_best_mask', 'apply_mask', 'make_blocks', 'make_final_message', 'add_codewords', 'make_matrix',
                'write_png', 'write_ppm', 'write_svg', 'write_pdf', 'write_pbm', 'write_pam', '_make_colormap', 'writable',
                'matrix_iter', 'matrix_iter_verbose', 'matrix_to_lines', 'add_segment', 'make_segment', 'encode_sequence', 'save', 'wrapper')
@@ -168,6 +171,9 @@ def gen_scenario(batch_seed, i, tier):
                            'op': rng.randrange(len(threads[t])),
                            'step': (int(10 ** rng.uniform(0, 4.9)) if rng.random() < 0.5 else rng.randint(1, 70000)) * (5 if gran == 'instr' else 1),
                            'delta': rng.choice((1, 3600, -86400, 10 ** 7))})
+            if rng.random() < 0.4:   # place the fault inside a function that holds in-flight state
+                faults[-1]['in_fn'] = rng.choice(FAULT_FUNCS)
+                faults[-1]['nth'] = int(10 ** rng.uniform(0, 2.7))
     sink_faults = []
     if rng.random() < 0.15:
         for _ in range(rng.randint(1, 2)):
